@@ -137,6 +137,34 @@ def threshold_monitor(real, ctx):
             C.Packet.setMTU(1500)
 
 
+def receive_limit_monitor(real, ctx):
+    """the receiving side at the top of the documented range: a message cut into exactly MAX_FRAGMENTS fragments (the most the sender's
+    size check lets through) is reassembled like any other; one fragment less is the control"""
+    import struct, time as _t
+    C = real.C
+    for count in (C.Packet.MAX_FRAGMENTS - 1, C.Packet.MAX_FRAGMENTS):
+        conn = real.new_endpoint("x", "server")
+        conn.status = C.ConnectionStatus.CONNECTED
+        conn.session_key_bytes = connlib.KEY
+        want = bytes((i * 7 + 3) & 0xFF for i in range(count))
+        t0 = _t.process_time()
+        try:
+            for i in range(count):
+                conn._recvAppFragment(C.SeqNum((i % 65535) + 1), struct.pack(">HHH", 9, 1 + i, count) + want[i:i + 1])
+        except Exception as e:
+            ctx.failure("fragment-receive-raised", "_recvAppFragment raised %s: %s on fragment of a %d-fragment message" %
+                        (type(e).__name__, e, count), {"count": count})
+            return
+        got = [m for (_s, m) in conn.incoming_messages]
+        ctx.count("receive-limit:%d fragments in %.1fs" % (count, _t.process_time() - t0))
+        if got != [want]:
+            ctx.failure("complete-message-not-reassembled", "all %d fragments of a %d-fragment message (MAX_FRAGMENTS = %d) were handed to "
+                        "_recvAppFragment, one byte each, in order: delivered %s" %
+                        (count, count, C.Packet.MAX_FRAGMENTS, "nothing" if not got else "%d message(s) of %s bytes" % (len(got), [len(g) for g in got][:3])),
+                        {"count": count, "how": "harness/props/c06.py receive_limit_monitor"})
+            return
+
+
 def run(ctx):
     real = connlib.Real()
     rng = ctx.rng
@@ -187,3 +215,5 @@ def run(ctx):
         if ctx.failures:
             return
     threshold_monitor(real2, ctx)
+    if not ctx.failures:
+        receive_limit_monitor(real2, ctx)
